@@ -33,3 +33,54 @@ claim("C19",
       "as values.",
       "must-lockset approximation, lock identity per type (not per instance); callbacks passed as call arguments are assumed synchronous; "
       "races inside goleveldb/metrics are out of scope; go/ssa + go/types of x/tools v0.29.0; rule table lint/internal/rules/c19.go")
+
+claim("C15",
+      "wire-value bounds and library preconditions by dominating tests with statically evaluated constants (SSA) + heeded-guard dominance for decode/code/range checks + closed inventory of panic/type-assertion sites over the VTA call-graph closure of the network roots",
+      "Decides, for every path of the frame reader, the two encryption handshakes, the 12 message handlers and the block/confirm insertion at once: "
+      "(1) the two allocations whose size is read off the connection (Peer.readConn, readHandshakeBuf) are dominated by a rejection above a constant "
+      "<= params.MaxPackageLength (package-level variables such as PackageMaxLen are resolved from their initialiser and must have no other writer), and all "
+      "three rlp streams over received bytes read from a *bytes.Reader, i.e. are limited to the bytes received; (2) CryptBlocks runs only on whole blocks into a "
+      "destination of the same length, byte-order decoders and constant cuts of byte slices in network/p2p act on buffers of proven length, and make(len(x)-k) "
+      "is preceded by a rejection of len(x) < k (this is how D34 ecies.symDecrypt and D35 Peer.unpackFrame were found; both are repaired and discharged); "
+      "(3) every handler and the protocol handshake leave on a decode error, the two handshake readers may ignore it only while their targets are fresh structs of "
+      "fixed-size byte arrays; (5) CheckCode is heeded before a frame is queued, the dispatcher rejects unknown codes, a handler error ends the handler loop, "
+      "From>To and StaHeight>CurHeight are rejected before any work starts; (6) the 108 explicit panic sites and single-result type assertions reachable from the "
+      "network roots are exactly the 88 inventoried (function, kind) entries, each with its invariant; a new site fails the check; GetCorrectMiner's unit assertion "
+      "is behind the ErrSmallerMineTime rejection (D20); NewTermRecord's vote-order panic is the recorded finding D8; (4) no function of the network, consensus, pool and store packages re-acquires a mutex it holds (D11) and (7) every access to peerSet.peers and the two message caches holds the owning mutex on every path from every caller (D21). "
+      "It does NOT decide: bounds checks with variable bounds, indexing, nil dereference, division by zero, nil-map writes; CPU or memory exhaustion by many "
+      "well-formed messages; goroutine leaks; deadlocks other than lock re-entry; nor that "
+      "the invariants cited in the inventory hold beyond the rules of C02/C05/C07 they cite.",
+      "go/types + go/ssa + VTA call graph of x/tools v0.29.0 (reachability is over-approximated; the closure stops at common/log and metrics and skips *_for_test helpers); "
+      "the frozen inventory lint/internal/rules/c15_inventory.go with hand-written invariants; trusted result lengths crypto.Keccak256 = 32, elliptic.Marshal >= 1; "
+      "rlp.Stream.Reset's limiting of a *bytes.Reader and the rlp decoder's own size enforcement are trusted; length tests must stand in the function that slices or allocates")
+claim("C20",
+      "language-version aware loop-variable capture scan (typed AST) + slice aliasing rule for append-to-prefix (SSA) + branch/dominance shape of the out-of-order paths and the tx batch handler (SSA/CFG)",
+      "Decides narrow structural necessary conditions of sync convergence only: (1) under the module's language version (go 1.14, read from the type checker's "
+      "configuration and cross-checked with go.mod) no go/defer closure inside a loop of network, network/p2p, chain/consensus refers to a variable declared by "
+      "the loop statement (D12: handleTxsMsg rebinds tx; the captured cell is also shown on SSA to be allocated per iteration and to hold the verified tx); "
+      "(2) in packages network and store no append(x[:k], ...) without capacity limit is followed by an element access to the old x, to an earlier load of its "
+      "variable or to a slice cut from it, before the variable is assigned again (D13: BlockCache.Add; the delete idiom in BlockCache.Remove is the positive control, "
+      "the same-length splice in the cbTable printer is the one named exemption); (3) in rcvBlockLoop a block is inserted only when HasBlock(parent) holds, the "
+      "parent-unknown branch alone reaches blockCache.Add with the tested block and then requests height-1 twice from the sender, the timer branch walks the cache "
+      "with a callback that inserts a block once its parent is known and re-arms the timer, insertBlock merges cached confirms (popped by the block's own height and "
+      "hash, stored into Block.Confirms) before InsertBlock and returns its verdict, handleConfirmMsg pushes the decoded confirm to confirmsCache exactly on the "
+      "unknown-block branch; (4) in handleTxsMsg the goroutine that calls AddTx is started only after VerifyTxBody accepted, in every iteration, and AddTx is behind "
+      "a denied ExistTx on the same transaction. It does NOT decide convergence itself - equality of end states over permutations, duplications and interleavings "
+      "of deliveries is a property of histories - nor that BlockCache stays sorted and loses nothing, eviction, timing, peer choice, or exactly-once across batches.",
+      "go/types + go/ssa of x/tools v0.29.0 (go/ssa honours the go 1.14 loop semantics because go/packages hands the go directive to the type checker); "
+      "the aliasing rule flags any element access to the old slice (not only indices >= k) and trusts that a store to the variable makes later loads fresh; default build configuration")
+
+claim("C14",
+      "codec sibling agreement (field-sensitive SSA writes/slices), registry + dynamic-shape tables, sentinel-keyed guard inventory with normalised control conditions, who-may-call",
+      "Decides, for every path of the codec code at once, the structural necessary conditions of round-tripping encodings: for Header, AccountData (incl. "
+      "rlpCandidate / rlpVersionRecord), Event, EventForStorage, ChangeLog, Profile and Transaction the EncodeRLP side, the shadow wire struct and the DecodeRLP side carry the same "
+      "fields wired name to name (elided header roots restored, the hand-written ChangeLog decoder reads the elements in wire order, frames with List/ListEnd and rejects unknown types); no "
+      "repository type has a one-sided custom codec; ChangeLog/Event/DeputyNode hashes are Keccak of exactly that encoding; all 19 change-log types are registered once with non-nil "
+      "functions and, per type and slot, constructor shapes ⊆ decoder shapes ⊆ redo-accepted shapes (4 empty-payload shapes exempt as unreachable, D30); the 14 canonical-form guards of "
+      "common/rlp are present under the right comparison on the right quantity and their errors propagate; encoders do not emit maps in map order (AccountData exempt, store-only); the "
+      "change-log decode path has no unchecked assertion/panic/indexing and unchecked payload assertions elsewhere only see the locally built journal; Profile maps are pre-allocated before "
+      "reflective decodes; each wire message code is decoded into the type it is sent as; txdata's JSON codec carries all 17 fields both ways. It does NOT decide round-trip equality or byte "
+      "canonicity as value properties, the base26 address text form, JSON value formats, or the reflection-driven generic rlp encoder.",
+      "go/types + go/ssa of x/tools v0.29.0, default build configuration; the frozen tables in lint/internal/rules/c14*.go (exemptions: Header.signerNodeID, ChangeLog.OldVal, Event derived "
+      "fields, AccountData legacy TxHashList/TxCount, trie.fullNode encode-only, 4 unreachable decoder shapes, AccountData map order); reflection in common/rlp is trusted to use declaration order and "
+      "struct tags symmetrically; dynamic shapes are read off MakeInterface operands in constructors/decoders (a shape passed through a parameter makes the obligation undecided)")
